@@ -401,10 +401,11 @@ class Xfrm(NetlinkProtocol):
         dst_selector = child_sa.tsr.get_network()
         src_port = child_sa.tsi.get_port()
         dst_port = child_sa.tsr.get_port()
-        ip_proto = child_sa.tsi.ip_proto
+        # the protocol both selectors allow: if one side says ANY, the other side decides (the two sides need not carry the same
+        # value, e.g. the packet's selector on one side and the policy's on the other), and both peers must end up with the same
+        ip_proto = child_sa.tsi.ip_proto if child_sa.tsr.ip_proto == 0 else child_sa.tsr.ip_proto
         ipsec_proto = (socket.IPPROTO_ESP if child_sa.proposal.protocol_id == Proposal.Protocol.ESP
                        else socket.IPPROTO_AH)
-
 
         encr_alg = (_cipher_names[child_sa.proposal.get_transform(Transform.Type.ENCR).id]
                     if ipsec_proto == socket.IPPROTO_ESP else None)
